@@ -1366,6 +1366,680 @@ example : ((ruleDataOf ⟨false, [], []⟩ (.syscall 3 (ofString "exit") (ofStri
         !(t.1 == LA.Gen.RuleTables.fieldCompare) && !(t.1 == LA.Gen.RuleTables.permField)))) = some true := by
   decide +kernel
 
+/-! ### the text half composed over a whole line: every all-syscalls rule without an arch filter
+(numeric, string-valued and inter-field comparison fields) -/
+
+/-- the two field names printed for an inter-field comparison code (smaller field code first) -/
+def cmpNames (v : Nat) : Option (Bytes × Bytes) :=
+  match LA.Gen.RuleTables.comparisonsTable.find? (fun e => e.2.2 == v) with
+  | none => none
+  | some e =>
+    match revLookup LA.Gen.RuleTables.fieldsTable (min e.1 e.2.1), revLookup LA.Gen.RuleTables.fieldsTable (max e.1 e.2.1) with
+    | some an, some bn => some (an, bn)
+    | _, _ => none
+
+/-- table fact: for every comparison code of the table, the printed pair of names is accepted by
+addInterField and looks up that same code. -/
+theorem cmp_table_fact :
+    LA.Gen.RuleTables.comparisonsTable.all (fun e0 =>
+      match cmpNames e0.2.2 with
+      | none => false
+      | some (an, bn) =>
+        match lookupB LA.Gen.RuleTables.fieldsTable an, lookupB LA.Gen.RuleTables.fieldsTable bn with
+        | some lf, some rf =>
+          LA.Gen.RuleTables.comparisonsTable.any (fun e => e.1 == lf) && (lookupComparison lf rf == some e0.2.2) &&
+          !an.isEmpty && an.all isReWord && !bn.isEmpty && bn.all isReWord
+        | _, _ => false) = true := by
+  decide +kernel
+
+theorem takeWhile_words_stop (an : Bytes) (c : Nat) (tl : Bytes) (ha : ∀ b ∈ an, isReWord b = true) (hc : isReWord c = false) :
+    (an ++ c :: tl).takeWhile isReWord = an := by
+  induction an with
+  | nil => simp [List.takeWhile_cons, hc]
+  | cons x xs ih =>
+    simp only [List.cons_append, List.takeWhile_cons, ha x (by simp), if_true]
+    rw [ih (fun b hb => ha b (by simp [hb]))]
+
+/-- the printed `-C` value is split by the -C expression into the same three parts. -/
+theorem comparison_token_reparse (an bn opS : Bytes) (ha0 : an ≠ []) (ha : ∀ b ∈ an, isReWord b = true)
+    (hb0 : bn ≠ []) (hb : ∀ b ∈ bn, isReWord b = true) (hop : opS = [61] ∨ opS = [33, 61]) :
+    matchComparison (an ++ opS ++ bn) = some (an, opS, bn) := by
+  have h61 : isReWord 61 = false := by decide
+  have h33 : isReWord 33 = false := by decide
+  have hball : bn.all isReWord = true := List.all_eq_true.mpr hb
+  have hbe : bn.isEmpty = false := by cases bn with | nil => exact absurd rfl hb0 | cons _ _ => rfl
+  have hae : an.isEmpty = false := by cases an with | nil => exact absurd rfl ha0 | cons _ _ => rfl
+  rcases hop with rfl | rfl
+  · have e : an ++ [61] ++ bn = an ++ 61 :: bn := by simp
+    rw [e]
+    unfold matchComparison
+    simp only [takeWhile_words_stop an 61 bn ha h61, hae, Bool.false_eq_true, if_false, List.drop_left]
+    have : (61 :: bn).dropWhile isReSpace = 61 :: bn := by
+      simp [List.dropWhile_cons, show isReSpace 61 = false by decide]
+    rw [this]
+    simp [hbe, hball]
+  · have e : an ++ [33, 61] ++ bn = an ++ 33 :: 61 :: bn := by simp
+    rw [e]
+    unfold matchComparison
+    simp only [takeWhile_words_stop an 33 (61 :: bn) ha h33, hae, Bool.false_eq_true, if_false, List.drop_left]
+    have : (33 :: 61 :: bn).dropWhile isReSpace = 33 :: 61 :: bn := by
+      simp [List.dropWhile_cons, show isReSpace 33 = false by decide]
+    rw [this]
+    simp [hbe, hball]
+
+/-- why an inter-field comparison triple is in a rule: its operator is = or != and its value is a
+code of the comparison table. -/
+def CmpJust (t : Nat × Nat × Nat) : Prop :=
+  t.1 = LA.Gen.RuleTables.fieldCompare → (t.2.2 = eqOp ∨ t.2.2 = neOp) ∧ ∃ e ∈ LA.Gen.RuleTables.comparisonsTable, e.2.2 = t.2.1
+
+theorem cmpJust_ruleDataOf {env : Env} {rule : Rule} {r : RuleData} (h : ruleDataOf env rule = some r) :
+    ∀ t ∈ r.trips, CmpJust t := by
+  have nocmp : LA.Gen.RuleTables.fieldsTable.all (fun p => p.2 != LA.Gen.RuleTables.fieldCompare) = true := by decide +kernel
+  refine ruleDataOf_induct (env := env) (fun r => ∀ t ∈ r.trips, CmpJust t) ?_ ?_ ?_ ?_ h
+  · intro fl ac _ _ t ht; simp at ht
+  · intro r r' l o v hp hf
+    unfold addFilter at hf
+    split at hf
+    · rename_i opc f hop hfl
+      split at hf
+      · simp at hf
+      · cases hv : filterValue env r f opc v with
+        | none => rw [hv] at hf; simp at hf
+        | some x =>
+          rw [hv] at hf
+          simp only [Option.map_some, Option.some.injEq] at hf
+          subst hf
+          intro t ht
+          simp only [List.mem_append, List.mem_cons, List.mem_nil_iff, or_false] at ht
+          rcases ht with ht | rfl
+          · exact hp t ht
+          · intro hc
+            exfalso
+            obtain ⟨p, hpm, hpv⟩ := lookupB_mem hfl
+            have := List.all_eq_true.mp nocmp p hpm
+            simp only [bne_iff_ne, ne_eq] at this
+            exact this (hpv.trans hc)
+    · simp at hf
+  · intro r r' l o v hp hi
+    unfold addInterField at hi
+    cases hop : lookupB LA.Gen.RuleTables.operatorsTable o with
+    | none => rw [hop] at hi; simp at hi
+    | some opc =>
+      rw [hop] at hi
+      simp only at hi
+      split at hi
+      · simp at hi
+      · rename_i hopc
+        split at hi
+        · split at hi
+          · simp at hi
+          · rename_i lf rf _ _ _
+            cases hc : lookupComparison lf rf with
+            | none => rw [hc] at hi; simp at hi
+            | some c =>
+              rw [hc] at hi
+              simp only [Option.some.injEq] at hi
+              subst hi
+              intro t ht
+              simp only [List.mem_append, List.mem_cons, List.mem_nil_iff, or_false] at ht
+              rcases ht with ht | rfl
+              · exact hp t ht
+              · intro _
+                refine ⟨?_, ?_⟩
+                · simp only [Bool.and_eq_true, bne_iff_ne, ne_eq, not_and, Decidable.not_not] at hopc
+                  by_cases h1 : opc = eqOp
+                  · exact Or.inl h1
+                  · exact Or.inr (hopc h1)
+                · unfold lookupComparison at hc
+                  cases hfd : LA.Gen.RuleTables.comparisonsTable.find? (fun e => e.1 == lf && e.2.1 == rf) with
+                  | none => rw [hfd] at hc; simp at hc
+                  | some e =>
+                    rw [hfd] at hc
+                    simp only [Option.map_some, Option.some.injEq] at hc
+                    exact ⟨e, List.mem_of_find?_eq_some hfd, hc⟩
+        · simp at hi
+  · intro r r' sc hp hs
+    have : r'.trips = r.trips := by
+      unfold addSyscall at hs
+      split at hs
+      · simp only [Option.some.injEq] at hs; subst hs; rfl
+      · simp only at hs
+        split at hs
+        · simp at hs
+        · split at hs
+          · simp at hs
+          · simp only [Option.some.injEq] at hs; subst hs; rfl
+    rw [this]; exact hp
+
+/-- a printed argument with its flag letter (70 = -F, 67 = -C): letter, left side, operator, right side -/
+abbrev GPart := Nat × Bytes × Bytes × Bytes
+
+def gFilter (p : GPart) : FilterSpec := ⟨if p.1 == 67 then 1 else 2, p.2.1, p.2.2.1, p.2.2.2⟩
+def gPrint (p : GPart) : Bytes := (if p.1 == 67 then ofString "-C " else ofString "-F ") ++ p.2.1 ++ p.2.2.1 ++ p.2.2.2
+
+/-- how the triples (with their strings) of a rule are printed, one argument per triple, together
+with the reason each triple is in the rule. -/
+inductive Printed (env : Env) (fl : Nat) : List (Nat × Nat × Nat) → List Bytes → List GPart → Prop
+  | nil : Printed env fl [] [] []
+  | str (t : Nat × Nat × Nat) (s lhs opS : Bytes) (ts : List (Nat × Nat × Nat)) (ss : List Bytes) (ps : List GPart) :
+      stringFields.contains t.1 = true → PTrip t lhs opS → t.2.1 = s.length → StrOk env fl t s →
+      (∃ c tl, s = c :: tl ∧ c ≠ 61) → Printed env fl ts ss ps →
+      Printed env fl (t :: ts) (s :: ss) ((70, lhs, opS, s) :: ps)
+  | num (t : Nat × Nat × Nat) (lhs opS : Bytes) (ts : List (Nat × Nat × Nat)) (ss : List Bytes) (ps : List GPart) :
+      stringFields.contains t.1 = false → PTrip t lhs opS → Justified env fl t →
+      (t.1 = LA.Gen.RuleTables.permField → t.2.1 ≠ 0) → Printed env fl ts ss ps →
+      Printed env fl (t :: ts) ss ((70, lhs, opS, fieldRhs t.1 t.2.1) :: ps)
+  | cmp (t : Nat × Nat × Nat) (an bn opS : Bytes) (ts : List (Nat × Nat × Nat)) (ss : List Bytes) (ps : List GPart) :
+      t.1 = LA.Gen.RuleTables.fieldCompare → cmpNames t.2.1 = some (an, bn) →
+      revLookup LA.Gen.RuleTables.operatorsTable t.2.2 = some opS → (t.2.2 = eqOp ∨ t.2.2 = neOp) →
+      (∃ e ∈ LA.Gen.RuleTables.comparisonsTable, e.2.2 = t.2.1) → Printed env fl ts ss ps →
+      Printed env fl (t :: ts) ss ((67, an, opS, bn) :: ps)
+
+theorem printed_length {env : Env} {fl : Nat} {ts : List (Nat × Nat × Nat)} {ss : List Bytes} {ps : List GPart}
+    (h : Printed env fl ts ss ps) : ps.length = ts.length := by
+  induction h with
+  | nil => rfl
+  | str _ _ _ _ _ _ _ _ _ _ _ _ _ ih => simp [ih]
+  | num _ _ _ _ _ _ _ _ _ _ _ ih => simp [ih]
+  | cmp _ _ _ _ _ _ _ _ _ _ _ _ _ ih => simp [ih]
+
+/-- L1: printFields prints exactly the arguments of `Printed`. -/
+theorem printFields_printed {env : Env} {fl : Nat} {ts : List (Nat × Nat × Nat)} {ss : List Bytes} {ps : List GPart}
+    (h : Printed env fl ts ss ps) :
+    printFields (ts.map (·.1)) (ts.map (·.2.1)) (ts.map (·.2.2)) ss = some (ps.map gPrint) := by
+  have ca : (LA.Gen.RuleTables.fieldCompare == LA.Gen.RuleTables.archField) = false := by decide
+  have cs : stringFields.contains LA.Gen.RuleTables.fieldCompare = false := by decide +kernel
+  induction h with
+  | nil => simp [printFields]
+  | str t s lhs opS ts ss ps hs hp hv hok hne hrest ih =>
+    simp only [List.map_cons, printFields, hp.op, hp.notArch, Bool.false_eq_true, if_false, hp.notCmp, hp.lhs, hs, if_true, ih,
+      Option.map_some, gPrint]
+    simp [List.append_assoc]
+  | num t lhs opS ts ss ps hs hp hj hpm hrest ih =>
+    simp only [List.map_cons, printFields, hp.op, hp.notArch, Bool.false_eq_true, if_false, hp.notCmp, hp.lhs, hs, ih,
+      Option.map_some, gPrint]
+    simp [List.append_assoc]
+  | cmp t an bn opS ts ss ps hc hnames hop hops he hrest ih =>
+    unfold cmpNames at hnames
+    cases hfd : LA.Gen.RuleTables.comparisonsTable.find? (fun e => e.2.2 == t.2.1) with
+    | none => rw [hfd] at hnames; cases hnames
+    | some e =>
+      rw [hfd] at hnames
+      simp only at hnames
+      cases h1 : revLookup LA.Gen.RuleTables.fieldsTable (min e.1 e.2.1) with
+      | none => rw [h1] at hnames; cases hnames
+      | some a1 =>
+        cases h2 : revLookup LA.Gen.RuleTables.fieldsTable (max e.1 e.2.1) with
+        | none => rw [h1, h2] at hnames; cases hnames
+        | some b1 =>
+          rw [h1, h2] at hnames
+          simp only [Option.some.injEq, Prod.mk.injEq] at hnames
+          obtain ⟨rfl, rfl⟩ := hnames
+          simp only [List.map_cons, printFields, hop, hc, ca, Bool.false_eq_true, if_false, beq_self_eq_true, if_true, hfd, h1, h2, ih,
+            Option.map_some, gPrint]
+
+/-- L3: every printed argument is split by its own expression (-F or -C) into itself. -/
+theorem printed_match {env : Env} (he : EnvOk env) {fl : Nat} {ts : List (Nat × Nat × Nat)} {ss : List Bytes} {ps : List GPart}
+    (h : Printed env fl ts ss ps) :
+    ∀ p ∈ ps, (p.1 = 70 ∧ matchFilter (p.2.1 ++ p.2.2.1 ++ p.2.2.2) = some p.2) ∨
+              (p.1 = 67 ∧ matchComparison (p.2.1 ++ p.2.2.1 ++ p.2.2.2) = some p.2) := by
+  have eqn : revLookup LA.Gen.RuleTables.operatorsTable eqOp = some [61] := by decide +kernel
+  have nen : revLookup LA.Gen.RuleTables.operatorsTable neOp = some [33, 61] := by decide +kernel
+  induction h with
+  | nil => intro p hp; simp at hp
+  | str t s lhs opS ts ss ps hs hp hv hok hne hrest ih =>
+    intro p hpm
+    rcases List.mem_cons.mp hpm with rfl | hpm
+    · obtain ⟨c, tl, rfl, hc⟩ := hne
+      obtain ⟨f1, f2, f3⟩ := names_facts hp.lhs hp.op
+      exact Or.inl ⟨rfl, C07_filter_token_reparse lhs opS c tl f1 f2 f3 hc⟩
+    · exact ih p hpm
+  | num t lhs opS ts ss ps hs hp hj hpm' hrest ih =>
+    intro p hpm
+    rcases List.mem_cons.mp hpm with rfl | hpm
+    · obtain ⟨⟨rhs0, a, hb⟩, hex⟩ := hj
+      exact Or.inl ⟨rfl, (C07_filter_reparse env he { flags := fl } t.1 t.2.1 t.2.2 lhs opS rhs0 a hp.lhs hp.op hs hp.notArch hb hex hpm').1⟩
+    · exact ih p hpm
+  | cmp t an bn opS ts ss ps hc hnames hop hops he' hrest ih =>
+    intro p hpm
+    rcases List.mem_cons.mp hpm with rfl | hpm
+    · obtain ⟨e, hem, hev⟩ := he'
+      have tf := List.all_eq_true.mp cmp_table_fact e hem
+      rw [hev, hnames] at tf
+      simp only at tf
+      cases h1 : lookupB LA.Gen.RuleTables.fieldsTable an with
+      | none => rw [h1] at tf; simp at tf
+      | some lf =>
+        cases h2 : lookupB LA.Gen.RuleTables.fieldsTable bn with
+        | none => rw [h1, h2] at tf; simp at tf
+        | some rf =>
+          rw [h1, h2] at tf
+          simp only [Bool.and_eq_true, Bool.not_eq_true', List.all_eq_true] at tf
+          obtain ⟨⟨⟨⟨⟨_, _⟩, a0⟩, a1⟩, b0⟩, b1⟩ := tf
+          have hopS : opS = [61] ∨ opS = [33, 61] := by
+            rcases hops with ho | ho
+            · rw [ho, eqn] at hop; exact Or.inl (Option.some.inj hop).symm
+            · rw [ho, nen] at hop; exact Or.inr (Option.some.inj hop).symm
+          refine Or.inr ⟨rfl, comparison_token_reparse an bn opS ?_ a1 ?_ b1 hopS⟩
+          · intro hh; subst hh; simp at a0
+          · intro hh; subst hh; simp at b0
+    · exact ih p hpm
+
+/-- L4: re-adding the printed arguments, one after the other, appends exactly the triples and their strings. -/
+theorem foldl_printed (env : Env) (he : EnvOk env) {fl : Nat} {ts : List (Nat × Nat × Nat)} {ss : List Bytes} {ps : List GPart}
+    (h : Printed env fl ts ss ps) (r0 : RuleData) (hfl : r0.flags = fl) :
+    (ps.map gFilter).foldl (fun (acc : Option RuleData) f =>
+        acc.bind fun r =>
+          if (f.typ == 2) = true then addFilter env r f.lhs f.op f.rhs
+          else if (f.typ == 1) = true then addInterField r f.lhs f.op f.rhs
+          else some r) (some r0) = some { r0 with trips := r0.trips ++ ts, strings := r0.strings ++ ss } := by
+  have nd1 : (LA.Gen.RuleTables.fieldsTable.map (·.1)).Nodup := by decide +kernel
+  have nd2 : (LA.Gen.RuleTables.operatorsTable.map (·.1)).Nodup := by decide +kernel
+  induction h generalizing r0 with
+  | nil => simp
+  | str t s lhs opS ts ss ps hs hp hv hok hne hrest ih =>
+    subst hfl
+    have hf := lookupB_of_revLookup nd1 hp.lhs
+    have ho := lookupB_of_revLookup nd2 hp.op
+    have step : addFilter env r0 lhs opS s = some { r0 with trips := r0.trips ++ [t], strings := r0.strings ++ [s] } := by
+      unfold addFilter
+      simp only [hf, ho, hok.2, Bool.false_eq_true, if_false]
+      rw [filterValue_flags0 env r0 { flags := r0.flags } rfl, hok.1]
+      simp only [Option.map_some, ← hv]
+    simp only [List.map_cons, List.foldl_cons, Option.bind_some, gFilter, show ((70 : Nat) == 67) = false by decide,
+      Bool.false_eq_true, if_false, beq_self_eq_true, if_true, step]
+    have := ih { r0 with trips := r0.trips ++ [t], strings := r0.strings ++ [s] } rfl
+    simp only [gFilter] at this
+    rw [this]
+    simp [List.append_assoc]
+  | num t lhs opS ts ss ps hs hp hj hpm hrest ih =>
+    subst hfl
+    obtain ⟨⟨rhs0, a, hb⟩, hex⟩ := hj
+    have hb' : filterValue env r0 t.1 t.2.2 rhs0 = some (t.2.1, none, a) := by
+      rw [filterValue_flags env r0 { flags := r0.flags } rfl]; exact hb
+    have step := (C07_filter_reparse env he r0 t.1 t.2.1 t.2.2 lhs opS rhs0 a hp.lhs hp.op hs hp.notArch hb' hex hpm).2
+    simp only [List.map_cons, List.foldl_cons, Option.bind_some, gFilter, show ((70 : Nat) == 67) = false by decide,
+      Bool.false_eq_true, if_false, beq_self_eq_true, if_true, step]
+    have := ih { r0 with trips := r0.trips ++ [(t.1, t.2.1, t.2.2)] } rfl
+    simp only [gFilter] at this
+    rw [this]
+    simp [List.append_assoc]
+  | cmp t an bn opS ts ss ps hc hnames hop hops he' hrest ih =>
+    subst hfl
+    obtain ⟨e, hem, hev⟩ := he'
+    have tf := List.all_eq_true.mp cmp_table_fact e hem
+    rw [hev, hnames] at tf
+    simp only at tf
+    have ho := lookupB_of_revLookup nd2 hop
+    cases h1 : lookupB LA.Gen.RuleTables.fieldsTable an with
+    | none => rw [h1] at tf; simp at tf
+    | some lf =>
+      cases h2 : lookupB LA.Gen.RuleTables.fieldsTable bn with
+      | none => rw [h1, h2] at tf; simp at tf
+      | some rf =>
+        rw [h1, h2] at tf
+        simp only [Bool.and_eq_true, Bool.not_eq_true', List.all_eq_true, beq_iff_eq] at tf
+        obtain ⟨⟨⟨⟨⟨hany, hlc⟩, _⟩, _⟩, _⟩, _⟩ := tf
+        have hopc : (t.2.2 != eqOp && t.2.2 != neOp) = false := by
+          rcases hops with ho' | ho' <;> simp [ho']
+        have step : addInterField r0 an opS bn = some { r0 with trips := r0.trips ++ [t] } := by
+          unfold addInterField
+          simp only [ho, hopc, Bool.false_eq_true, if_false, h1, h2, hany, Bool.not_true, hlc]
+          have : t = (LA.Gen.RuleTables.fieldCompare, t.2.1, t.2.2) := by rw [← hc]
+          rw [← this]
+        simp only [List.map_cons, List.foldl_cons, Option.bind_some, gFilter, beq_self_eq_true, if_true,
+          show ((1 : Nat) == 2) = false by decide, Bool.false_eq_true, if_false, step]
+        have := ih { r0 with trips := r0.trips ++ [t] } rfl
+        simp only [gFilter] at this
+        rw [this]
+        simp [List.append_assoc]
+
+/-! ### the flag loop over printed -F / -C arguments -/
+
+def tokC : Bytes := [45, 67]   -- "-C"
+
+theorem parseLoop_C (fuel : Nat) (v : Bytes) (rest : List Bytes) (fs : FS) :
+    parseLoop (fuel + 1) (tokC :: v :: rest) fs = (setFlag fs 67 v).bind (parseLoop fuel rest) :=
+  parseLoop_value_flag 67 (by decide) (by decide) (by decide) fuel v rest fs
+
+/-- the tokens of a list of printed arguments -/
+def gTokens (ps : List GPart) : List Bytes := ps.flatMap (fun p => [[45, p.1], p.2.1 ++ p.2.2.1 ++ p.2.2.2])
+
+theorem gTokens_length (ps : List GPart) : (gTokens ps).length = 2 * ps.length := by
+  induction ps with
+  | nil => rfl
+  | cons t ts ih => simp only [gTokens, List.flatMap_cons, List.length_append, List.length_cons, List.length_nil] at ih ⊢; omega
+
+def GMatch (p : GPart) : Prop :=
+  (p.1 = 70 ∧ matchFilter (p.2.1 ++ p.2.2.1 ++ p.2.2.2) = some p.2) ∨
+  (p.1 = 67 ∧ matchComparison (p.2.1 ++ p.2.2.1 ++ p.2.2.2) = some p.2)
+
+/-- L5: the flag loop over a run of printed -F / -C arguments that each re-parse into their parts:
+exactly one filter per argument, in order, of the right kind, and its letter recorded as visited. -/
+theorem parseLoop_gTokens (ps : List GPart) (hm : ∀ p ∈ ps, GMatch p) (fuel : Nat) (rest : List Bytes) (fs : FS) :
+    parseLoop (fuel + ps.length) (gTokens ps ++ rest) fs =
+      parseLoop fuel rest { fs with filters := fs.filters ++ ps.map gFilter, visited := fs.visited ++ ps.map (·.1) } := by
+  induction ps generalizing fs with
+  | nil => simp [gTokens]
+  | cons t ts ih =>
+    have e : fuel + (t :: ts).length = (fuel + ts.length) + 1 := by simp; omega
+    rw [e]
+    simp only [gTokens, List.flatMap_cons, List.cons_append, List.nil_append]
+    have hs : parseLoop (fuel + ts.length + 1) ([45, t.1] :: (t.2.1 ++ t.2.2.1 ++ t.2.2.2) :: (gTokens ts ++ rest)) fs =
+        parseLoop (fuel + ts.length) (gTokens ts ++ rest)
+          { fs with visited := fs.visited ++ [t.1], filters := fs.filters ++ [gFilter t] } := by
+      rcases hm t (by simp) with ⟨h70, hmt⟩ | ⟨h67, hmt⟩
+      · have : ([45, t.1] : Bytes) = tokF := by rw [h70]; rfl
+        rw [this, parseLoop_F]
+        have : setFlag fs 70 (t.2.1 ++ t.2.2.1 ++ t.2.2.2) =
+            some { fs with visited := fs.visited ++ [t.1], filters := fs.filters ++ [gFilter t] } := by
+          unfold setFlag
+          simp only [show ((70 : Nat) == 97) = false by decide, show ((70 : Nat) == 65) = false by decide,
+            show ((70 : Nat) == 67) = false by decide, Bool.false_eq_true, if_false, beq_self_eq_true, if_true, hmt,
+            Option.map_some, gFilter, h70]
+        rw [this]; rfl
+      · have : ([45, t.1] : Bytes) = tokC := by rw [h67]; rfl
+        rw [this, parseLoop_C]
+        have : setFlag fs 67 (t.2.1 ++ t.2.2.1 ++ t.2.2.2) =
+            some { fs with visited := fs.visited ++ [t.1], filters := fs.filters ++ [gFilter t] } := by
+          unfold setFlag
+          simp only [show ((67 : Nat) == 97) = false by decide, show ((67 : Nat) == 65) = false by decide,
+            Bool.false_eq_true, if_false, beq_self_eq_true, if_true, hmt,
+            Option.map_some, gFilter, h67]
+        rw [this]; rfl
+    have hs' : parseLoop (fuel + ts.length + 1) ([45, t.1] :: (t.2.1 ++ (t.2.2.1 ++ t.2.2.2)) :: (gTokens ts ++ rest)) fs =
+        parseLoop (fuel + ts.length) (gTokens ts ++ rest)
+          { fs with visited := fs.visited ++ [t.1], filters := fs.filters ++ [gFilter t] } := by
+      rw [← hs]; simp [List.append_assoc]
+    simp only [gTokens] at hs hs' ih ⊢
+    first
+      | rw [hs]
+      | rw [hs']
+    rw [ih (fun x hx => hm x (by simp [hx]))]
+    simp [List.append_assoc]
+
+/-- L2: everything Build accumulates (without arch filters, strings non-empty and not starting with
+'=', no empty permission set) is printable. -/
+theorem printed_exists (env : Env) (fl : Nat) (ts : List (Nat × Nat × Nat)) (ss : List Bytes)
+    (hsa : SAligned env fl ts ss)
+    (hok : ∀ t ∈ ts, tripOk t = true)
+    (harch : ∀ t ∈ ts, (t.1 == LA.Gen.RuleTables.archField) = false)
+    (hj : ∀ t ∈ ts, stringFields.contains t.1 = false → (t.1 == LA.Gen.RuleTables.fieldCompare) = false → Justified env fl t)
+    (hcj : ∀ t ∈ ts, CmpJust t)
+    (hperm : ∀ t ∈ ts, t.1 = LA.Gen.RuleTables.permField → t.2.1 ≠ 0)
+    (hstr : ∀ s ∈ ss, ∃ c tl, s = c :: tl ∧ c ≠ 61) :
+    ∃ ps, Printed env fl ts ss ps := by
+  have cs : stringFields.contains LA.Gen.RuleTables.fieldCompare = false := by decide +kernel
+  induction ts generalizing ss with
+  | nil =>
+    simp only [SAligned] at hsa
+    subst hsa
+    exact ⟨[], .nil⟩
+  | cons t ts ih =>
+    have hokt := hok t (by simp)
+    have ha := harch t (by simp)
+    unfold tripOk at hokt
+    simp only [Bool.and_eq_true, ha, Bool.false_eq_true, if_false] at hokt
+    obtain ⟨hop1, hrest1⟩ := hokt
+    cases hop : revLookup LA.Gen.RuleTables.operatorsTable t.2.2 with
+    | none => rw [hop] at hop1; cases hop1
+    | some opS =>
+      simp only [SAligned] at hsa
+      by_cases hc : (t.1 == LA.Gen.RuleTables.fieldCompare) = true
+      · have hce : t.1 = LA.Gen.RuleTables.fieldCompare := by simpa using hc
+        have hs' : stringFields.contains t.1 = false := by rw [hce]; exact cs
+        simp only [hs', Bool.false_eq_true, if_false] at hsa
+        obtain ⟨ps, hps⟩ := ih ss hsa (fun x hx => hok x (by simp [hx])) (fun x hx => harch x (by simp [hx]))
+          (fun x hx => hj x (by simp [hx])) (fun x hx => hcj x (by simp [hx])) (fun x hx => hperm x (by simp [hx])) hstr
+        obtain ⟨hops, hex⟩ := hcj t (by simp) hce
+        rw [if_pos hc] at hrest1
+        -- names from tripOk
+        cases hfd : LA.Gen.RuleTables.comparisonsTable.find? (fun e => e.2.2 == t.2.1) with
+        | none => rw [hfd] at hrest1; cases hrest1
+        | some e =>
+          rw [hfd] at hrest1
+          simp only [Bool.and_eq_true] at hrest1
+          cases h1 : revLookup LA.Gen.RuleTables.fieldsTable (min e.1 e.2.1) with
+          | none => rw [h1] at hrest1; cases hrest1.1
+          | some an =>
+            cases h2 : revLookup LA.Gen.RuleTables.fieldsTable (max e.1 e.2.1) with
+            | none => rw [h2] at hrest1; cases hrest1.2
+            | some bn =>
+              have hn : cmpNames t.2.1 = some (an, bn) := by
+                unfold cmpNames
+                rw [hfd]
+                simp only [h1, h2]
+              exact ⟨_, .cmp t an bn opS ts ss ps hce hn hop hops hex hps⟩
+      · have hc' : (t.1 == LA.Gen.RuleTables.fieldCompare) = false := by simpa using hc
+        rw [if_neg hc] at hrest1
+        cases hl : revLookup LA.Gen.RuleTables.fieldsTable t.1 with
+        | none => rw [hl] at hrest1; cases hrest1
+        | some lhs =>
+          have hp : PTrip t lhs opS := ⟨ha, hc', hl, hop⟩
+          by_cases hs : stringFields.contains t.1 = true
+          · rw [if_pos hs] at hsa
+            obtain ⟨s, rest, rfl, hv, hsok, hr⟩ := hsa
+            obtain ⟨ps, hps⟩ := ih rest hr (fun x hx => hok x (by simp [hx])) (fun x hx => harch x (by simp [hx]))
+              (fun x hx => hj x (by simp [hx])) (fun x hx => hcj x (by simp [hx])) (fun x hx => hperm x (by simp [hx]))
+              (fun x hx => hstr x (by simp [hx]))
+            exact ⟨_, .str t s lhs opS ts rest ps hs hp hv hsok (hstr s (by simp)) hps⟩
+          · have hs' : stringFields.contains t.1 = false := by simpa using hs
+            rw [if_neg hs] at hsa
+            obtain ⟨ps, hps⟩ := ih ss hsa (fun x hx => hok x (by simp [hx])) (fun x hx => harch x (by simp [hx]))
+              (fun x hx => hj x (by simp [hx])) (fun x hx => hcj x (by simp [hx])) (fun x hx => hperm x (by simp [hx])) hstr
+            exact ⟨_, .num t lhs opS ts ss ps hs' hp (hj t (by simp) hs' hc') (hperm t (by simp)) hps⟩
+
+/-- the tokens of the line ToCommandLine prints for an all-syscalls rule without arch filter -/
+def lineTokens (fl : Nat) (l a : Bytes) (ps : List GPart) : List Bytes :=
+  [tokA, a ++ [44] ++ l] ++
+  (if fl == LA.Gen.RuleTables.exitFilter || fl == LA.Gen.RuleTables.entryFilter then [tokS, ofString "all"] else []) ++
+  gTokens ps
+
+def fsAfterG (l a : Bytes) (sys : List Bytes) (vis : List Nat) (ps : List GPart) : FS :=
+  { append := some (l, a), syscalls := sys, filters := ps.map gFilter, visited := vis }
+
+/-- L6: the generic second half of the text round trip over printed -F / -C arguments. -/
+theorem reparse_of_gparts (env : Env) (r : RuleData) (l a : Bytes)
+    (hl : getList r.flags = some l) (ha : getAction r.action = some a)
+    (ps : List GPart) (hmatch : ∀ p ∈ ps, GMatch p)
+    (hfold' : (ps.map gFilter).foldl (fun (acc : Option RuleData) f =>
+        acc.bind fun r =>
+          if (f.typ == 2) = true then addFilter env r f.lhs f.op f.rhs
+          else if (f.typ == 1) = true then addInterField r f.lhs f.op f.rhs
+          else some r) (some { flags := r.flags, action := r.action, allSyscalls := true }) =
+        some { flags := r.flags, action := r.action, allSyscalls := true, trips := r.trips, strings := r.strings })
+    (hall : r.allSyscalls = true) (hsys : r.syscalls = []) :
+    ∃ rule' r', parseArgs (lineTokens r.flags l a ps) = some rule' ∧
+      ruleDataOf env rule' = some r' ∧ r'.trips = r.trips ∧ toWire r' = toWire r := by
+  have hadd := setAdd_print hl ha
+  have hsetA : setFlag {} 97 (a ++ [44] ++ l) = some (fsAfterG l a [] [97] []) := by
+    unfold setFlag
+    simp only [beq_self_eq_true, if_true, hadd, Option.map_some, fsAfterG, List.map_nil, List.nil_append]
+  have hsplit : splitList (ofString "all") = [ofString "all"] := by decide +kernel
+  have hlet : ∀ x ∈ ps.map (fun p : GPart => p.1), x = 70 ∨ x = 67 := by
+    intro x hx
+    obtain ⟨p, hp, rfl⟩ := List.mem_map.mp hx
+    rcases hmatch p hp with ⟨h, _⟩ | ⟨h, _⟩
+    · exact Or.inl h
+    · exact Or.inr h
+  have hvlen : (ps.map (fun p : GPart => p.1)).length = ps.length := by simp
+  by_cases hexit : (r.flags == LA.Gen.RuleTables.exitFilter || r.flags == LA.Gen.RuleTables.entryFilter) = true
+  · have htok : lineTokens r.flags l a ps = tokA :: (a ++ [44] ++ l) :: tokS :: ofString "all" :: (gTokens ps ++ []) := by
+      simp only [lineTokens, hexit, if_true, List.cons_append, List.nil_append, List.append_nil]
+    have hfuel : (lineTokens r.flags l a ps).length + 1 = (((3 + ps.length) + ps.length) + 1) + 1 := by
+      rw [htok]
+      simp only [List.length_cons, List.length_append, List.length_nil, gTokens_length]
+      omega
+    have hloop : parseLoop ((lineTokens r.flags l a ps).length + 1) (lineTokens r.flags l a ps) {} =
+        some (fsAfterG l a [ofString "all"] ([97] ++ [83] ++ ps.map (fun p : GPart => p.1)) ps, 0) := by
+      rw [hfuel, htok, parseLoop_a, hsetA]
+      simp only [Option.bind_some]
+      rw [parseLoop_S]
+      have hsetS : setFlag (fsAfterG l a [] [97] []) 83 (ofString "all") = some (fsAfterG l a [ofString "all"] ([97] ++ [83]) []) := by
+        unfold setFlag
+        simp only [show ((83 : Nat) == 97) = false by decide, show ((83 : Nat) == 65) = false by decide,
+          show ((83 : Nat) == 67) = false by decide, show ((83 : Nat) == 70) = false by decide, Bool.false_eq_true,
+          if_false, beq_self_eq_true, if_true, hsplit, fsAfterG, List.map_nil, List.nil_append]
+      rw [hsetS]
+      simp only [Option.bind_some]
+      rw [parseLoop_gTokens ps hmatch]
+      have e3 : 3 + ps.length = (2 + ps.length) + 1 := by omega
+      rw [e3]
+      simp only [fsAfterG, List.map_nil, List.nil_append, parseLoop]
+    have hfin : finish (fsAfterG l a [ofString "all"] ([97] ++ [83] ++ ps.map (fun p : GPart => p.1)) ps) =
+        some (.syscall 3 l a (ps.map gFilter) [ofString "all"] []) := by
+      unfold finish fsAfterG
+      have c1 : ([97] ++ [83] ++ ps.map (fun p : GPart => p.1)).contains 68 = false := by
+        simp only [List.contains_eq_mem, decide_eq_false_iff_not, List.mem_append, List.mem_cons, List.mem_nil_iff, or_false]
+        intro hh
+        rcases hh with (hh | hh) | hh
+        · omega
+        · omega
+        · rcases hlet 68 hh with h | h <;> omega
+      have c2 : ([97] ++ [83] ++ ps.map (fun p : GPart => p.1)).any (fun n => n == 119 || n == 112) = false := by
+        rw [List.any_eq_false]
+        intro x hx
+        simp only [List.mem_append, List.mem_cons, List.mem_nil_iff, or_false] at hx
+        rcases hx with (rfl | rfl) | hx
+        · decide
+        · decide
+        · rcases hlet x hx with rfl | rfl <;> decide
+      have c3 : ([97] ++ [83] ++ ps.map (fun p : GPart => p.1)).any (fun n => n == 97 || n == 65 || n == 67 || n == 70 || n == 83) = true := by
+        simp
+      simp only [c1, c2, c3]
+      rfl
+    have hparse : parseArgs (lineTokens r.flags l a ps) = some (.syscall 3 l a (ps.map gFilter) [ofString "all"] []) := by
+      unfold parseArgs
+      rw [hloop]
+      simp only [Nat.lt_irrefl, if_false, gt_iff_lt]
+      exact hfin
+    have hrd : ruleDataOf env (.syscall 3 l a (ps.map gFilter) [ofString "all"] []) =
+        some { flags := r.flags, action := r.action, allSyscalls := true, explicitAll := true, trips := r.trips, strings := r.strings } := by
+      simp only [ruleDataOf, setList_getList hl, setAction_getAction ha, hfold']
+      simp [addSyscall, addKeys]
+    refine ⟨_, _, hparse, hrd, rfl, ?_⟩
+    exact toWire_congr _ _ rfl rfl rfl rfl hall.symm hsys.symm
+  · have hexit' : (r.flags == LA.Gen.RuleTables.exitFilter || r.flags == LA.Gen.RuleTables.entryFilter) = false := by
+      simpa using hexit
+    have htok : lineTokens r.flags l a ps = tokA :: (a ++ [44] ++ l) :: (gTokens ps ++ []) := by
+      simp only [lineTokens, hexit', Bool.false_eq_true, if_false, List.cons_append, List.nil_append, List.append_nil]
+    have hfuel : (lineTokens r.flags l a ps).length + 1 = ((2 + ps.length) + ps.length) + 1 := by
+      rw [htok]
+      simp only [List.length_cons, List.length_append, List.length_nil, gTokens_length]
+      omega
+    have hloop : parseLoop ((lineTokens r.flags l a ps).length + 1) (lineTokens r.flags l a ps) {} =
+        some (fsAfterG l a [] ([97] ++ ps.map (fun p : GPart => p.1)) ps, 0) := by
+      rw [hfuel, htok, parseLoop_a, hsetA]
+      simp only [Option.bind_some]
+      rw [parseLoop_gTokens ps hmatch]
+      have e3 : 2 + ps.length = (1 + ps.length) + 1 := by omega
+      rw [e3]
+      simp only [fsAfterG, List.map_nil, List.nil_append, parseLoop]
+    have hfin : finish (fsAfterG l a [] ([97] ++ ps.map (fun p : GPart => p.1)) ps) =
+        some (.syscall 3 l a (ps.map gFilter) [] []) := by
+      unfold finish fsAfterG
+      have c1 : ([97] ++ ps.map (fun p : GPart => p.1)).contains 68 = false := by
+        simp only [List.contains_eq_mem, decide_eq_false_iff_not, List.mem_append, List.mem_cons, List.mem_nil_iff, or_false]
+        intro hh
+        rcases hh with hh | hh
+        · omega
+        · rcases hlet 68 hh with h | h <;> omega
+      have c2 : ([97] ++ ps.map (fun p : GPart => p.1)).any (fun n => n == 119 || n == 112) = false := by
+        rw [List.any_eq_false]
+        intro x hx
+        simp only [List.mem_append, List.mem_cons, List.mem_nil_iff, or_false] at hx
+        rcases hx with rfl | hx
+        · decide
+        · rcases hlet x hx with rfl | rfl <;> decide
+      have c3 : ([97] ++ ps.map (fun p : GPart => p.1)).any (fun n => n == 97 || n == 65 || n == 67 || n == 70 || n == 83) = true := by
+        simp
+      simp only [c1, c2, c3]
+      rfl
+    have hparse : parseArgs (lineTokens r.flags l a ps) = some (.syscall 3 l a (ps.map gFilter) [] []) := by
+      unfold parseArgs
+      rw [hloop]
+      simp only [Nat.lt_irrefl, if_false, gt_iff_lt]
+      exact hfin
+    have hrd : ruleDataOf env (.syscall 3 l a (ps.map gFilter) [] []) =
+        some { flags := r.flags, action := r.action, allSyscalls := true, trips := r.trips, strings := r.strings } := by
+      simp only [ruleDataOf, setList_getList hl, setAction_getAction ha, hfold']
+      simp [addKeys]
+    refine ⟨_, _, hparse, hrd, rfl, ?_⟩
+    exact toWire_congr _ _ rfl rfl rfl rfl hall.symm hsys.symm
+
+/-- Second clause of C07 as one theorem for every all-syscalls rule without an arch filter: numeric
+filters, string-valued filters (keys included) **and inter-field comparisons**, in any number and
+order. For every syscall rule Build accepts that applies to all syscalls, has no arch filter, is
+not of the exact shape `-w` produces, has no empty permission set and whose string values are
+non-empty and do not begin with '=': (1) ToCommandLine's text is `-a action,list [-S all]` followed
+by one `-F name op value` or `-C name op name` element per field, in order; (2) the tokens of that
+text are accepted by flags.Parse (each `-F` / `-C` argument is split into the same three parts)
+and Build on the result accumulates the same triples and strings in the same order; (3) the wire
+data is byte-identical. -/
+theorem C07_roundtrip_no_arch (env : Env) (he : EnvOk env) (rule : Rule) (r : RuleData)
+    (hr : ruleDataOf env rule = some r)
+    (harch : ∀ t ∈ r.trips, (t.1 == LA.Gen.RuleTables.archField) = false)
+    (hperm : ∀ t ∈ r.trips, t.1 = LA.Gen.RuleTables.permField → t.2.1 ≠ 0)
+    (hstr : ∀ s ∈ r.strings, ∃ c tl, s = c :: tl ∧ c ≠ 61)
+    (hw : asFileWatch r = none)
+    (hall : r.allSyscalls = true) (hsys : r.syscalls = []) :
+    ∃ (l a : Bytes) (ps : List GPart),
+      getList r.flags = some l ∧ getAction r.action = some a ∧ ps.length = r.trips.length ∧
+      cmdLineOf r = some (joinWith [32] ([ofString "-a", a ++ [44] ++ l] ++
+        (if r.flags == LA.Gen.RuleTables.exitFilter || r.flags == LA.Gen.RuleTables.entryFilter then [ofString "-S", ofString "all"] else []) ++
+        ps.map gPrint)) ∧
+      ∃ rule' r', parseArgs (lineTokens r.flags l a ps) = some rule' ∧
+        ruleDataOf env rule' = some r' ∧ r'.trips = r.trips ∧ toWire r' = toWire r := by
+  have hp := printInv_ruleDataOf he hr
+  have hsa := saligned_ruleDataOf hr
+  have hjust := justified_ruleDataOf hr
+  have hcj := cmpJust_ruleDataOf hr
+  cases hl : getList r.flags with
+  | none => have := hp.list; rw [hl] at this; cases this
+  | some l =>
+  cases ha : getAction r.action with
+  | none => have := hp.action; rw [ha] at this; cases this
+  | some a =>
+  obtain ⟨ps, hps⟩ := printed_exists env r.flags r.trips r.strings hsa hp.trips harch hjust hcj hperm hstr
+  refine ⟨l, a, ps, rfl, rfl, printed_length hps, ?_, ?_⟩
+  · unfold cmdLineOf
+    rw [hl, ha]
+    simp only
+    rw [hw]
+    simp only
+    have hnoarch : lastIndexOf r.fields LA.Gen.RuleTables.archField = none := by
+      unfold lastIndexOf
+      have : (r.fields.zipIdx).filter (fun p => p.1 == LA.Gen.RuleTables.archField) = [] := by
+        rw [List.filter_eq_nil_iff]
+        intro p hpm
+        have hz := List.mem_zipIdx_iff_getElem?.mp hpm
+        simp only [RuleData.fields, List.getElem?_map, Option.map_eq_some_iff] at hz
+        obtain ⟨t, hti, htf⟩ := hz
+        have := harch t (List.mem_of_getElem? hti)
+        rw [htf] at this
+        simpa using this
+      rw [this]; rfl
+    rw [hnoarch]
+    simp only
+    have hpf := printFields_printed hps
+    simp only [RuleData.fields, RuleData.values, RuleData.fieldFlags, hpf, hall, if_true]
+    simp [List.append_assoc]
+  · have hmatch := printed_match he hps
+    have hfold := foldl_printed env he hps { flags := r.flags, action := r.action, allSyscalls := true } rfl
+    refine reparse_of_gparts env r l a hl ha ps hmatch ?_ hall hsys
+    simpa using hfold
+
+/-- non-vacuity of `C07_roundtrip_no_arch`: `-a always,exit -F pid=1 -C auid!=uid -F exe=/bin/ls -k a`
+satisfies its hypotheses. -/
+example : ((ruleDataOf ⟨false, [], []⟩ (.syscall 3 (ofString "exit") (ofString "always")
+    [⟨2, ofString "pid", [61], ofString "1"⟩, ⟨1, ofString "auid", [33, 61], ofString "uid"⟩,
+     ⟨2, ofString "exe", [61], ofString "/bin/ls"⟩] [] [ofString "a"])).map (fun r =>
+      r.allSyscalls && r.syscalls.isEmpty && decide (r.trips.length = 4) && decide (r.strings.length = 2) &&
+      (asFileWatch r).isNone && r.trips.any (fun t => t.1 == LA.Gen.RuleTables.fieldCompare) &&
+      r.strings.all (fun s => match s with | c :: _ => c != 61 | [] => false) &&
+      r.trips.all (fun t => !(t.1 == LA.Gen.RuleTables.archField) && !(t.1 == LA.Gen.RuleTables.permField)))) = some true := by
+  decide +kernel
+
 /-- Wire round trip: the library's own decoder (fromWireFormat + fromAuditRuleData, the first half
 of ToCommandLine) inverts its encoder on everything rule.Build produces — list, action, every
 (field, value, operator) triple in order, every string, and the syscall set (as a set; listed
